@@ -42,6 +42,12 @@ func main() {
 		genC02(cw, *seed, *tier)
 	case "c16":
 		genC16(cw, *seed, *tier)
+	case "c07":
+		genC07(cw, *seed, *tier)
+	case "c08":
+		genC08(cw, *seed, *tier)
+	case "scan":
+		genScan(cw, *seed, *tier)
 	case "c03":
 		genC03(cw, *seed, *tier)
 	case "c04":
